@@ -74,8 +74,16 @@ def cls_of(v):
     return "fin"
 
 
-def fx_or0(v, unit):
-    return fx(v, unit) if cls_of(v) == "fin" else 0
+def fx_cls(v, unit):
+    """(fixed-point integer, class): class "fin" | "nan" | "inf" | "-inf" | "big" (finite but outside
+    TLC's integer range at this unit; the integer is 0 whenever the class is not "fin")."""
+    c = cls_of(v)
+    if c != "fin":
+        return 0, c
+    try:
+        return fx(v, unit), "fin"
+    except OverflowError:
+        return 0, "big"
 
 
 def var_fits(col, ws):
@@ -134,8 +142,7 @@ def rec_wvar(sc):
             with time_limit(5), np.errstate(all="ignore"):
                 s2 = weighted_var(x, None if wnone else np.array([k * w for w in ws], dtype=float))
             s2 = np.atleast_1d(np.asarray(s2, dtype=float)).ravel()
-            e["vcls"] = [cls_of(v) for v in s2]
-            e["vals"] = [fx_or0(v, 10 ** 6) for v in s2]
+            e["vals"], e["vcls"] = [list(t) for t in zip(*[fx_cls(v, 10 ** 6) for v in s2])] if len(s2) else ([], [])
         except Hang:
             e["res"] = "hang"
             HANGS[0] += 1
@@ -156,10 +163,8 @@ def rec_ess(sc):
         try:
             with time_limit(5), np.errstate(all="ignore"):
                 v = compute_ess(w if sc.get("aslist") else np.array(w, dtype=float))
-            v = float(v)
-            if cls_of(v) == "fin":
-                e["val"] = fx(v)
-            else:
+            e["val"], c = fx_cls(float(v), 10 ** 6)
+            if c != "fin":
                 e["res"] = "nonfinite"
         except Hang:
             e["res"] = "hang"
@@ -216,16 +221,18 @@ def rec_gm(sc):
                 lp = GMDistribution.logpdf(x, **kw)
             p = np.atleast_1d(np.asarray(p, dtype=float)).ravel()
             lp = np.atleast_1d(np.asarray(lp, dtype=float)).ravel()
-            if not all(cls_of(v) == "fin" for v in p):
+            pc = [fx_cls(v, 10 ** 8) for v in p]
+            if not all(c == "fin" for _v, c in pc):
                 e["res"] = "nonfinite"
             else:
-                e["ps"] = [fx(v, 10 ** 8) for v in p]
-                e["lcls"] = [cls_of(v) for v in lp]
-                e["lps"] = [fx_or0(v, 10 ** 6) for v in lp]
+                e["ps"] = [v for v, _c in pc]
+                lc = [fx_cls(v, 10 ** 6) for v in lp]
+                e["lps"] = [v for v, _c in lc]
+                e["lcls"] = [c for _v, c in lc]
                 # oracle field: the logarithm (python's math.log) of the function's own pdf output
-                orc = [math.log(v) if v > 0 else -math.inf for v in p]
-                e["lplogcls"] = [cls_of(v) for v in orc]
-                e["lplogs"] = [fx_or0(v, 10 ** 6) for v in orc]
+                oc = [fx_cls(math.log(v) if v > 0 else -math.inf, 10 ** 6) for v in p]
+                e["lplogs"] = [v for v, _c in oc]
+                e["lplogcls"] = [c for _v, c in oc]
         except Hang:
             e["res"] = "hang"
             HANGS[0] += 1
@@ -237,6 +244,9 @@ def rec_gm(sc):
     return dict(kind="gm", means=sc["means"], wts=wts, sds=sc["sds"], events=events)
 
 
+MAX_RVS_EVENTS = 4000      # logging stops there (only a call that does not come to an end gets that far)
+
+
 class RecordingRandomState(np.random.RandomState):
     """numpy's RandomState that logs the `size` of every choice() call."""
 
@@ -246,7 +256,8 @@ class RecordingRandomState(np.random.RandomState):
 
     def choice(self, a, size=None, replace=True, p=None):
         k = -1 if size is None else int(size)
-        self._log.append(dict(ev="choice", k=abs(k), kneg=k < 0))
+        if len(self._log) < MAX_RVS_EVENTS:
+            self._log.append(dict(ev="choice", k=abs(k), kneg=k < 0))
         return super().choice(a, size=size, replace=replace, p=p)
 
 
@@ -285,7 +296,8 @@ def rec_rvs(sc):
         t = len(blocks) + 1
         blocks.append(np.array(x, copy=True))
         m = constraint_mask(con, t, x, offset=sum(len(b) for b in blocks[:-1]))
-        events.append(dict(ev="prior", n=int(len(x)), mask=[int(b) for b in m]))
+        if len(events) < MAX_RVS_EVENTS:
+            events.append(dict(ev="prior", n=int(len(x)), mask=[int(b) for b in m]))
         out = np.where(m, -1.5, -np.inf)
         if con.get("nan_invalid"):
             out = np.where(m, -1.5, np.nan)
@@ -298,7 +310,7 @@ def rec_rvs(sc):
         kw["cov"] = cov
     if con["kind"] != "none":
         kw["prior_logpdf"] = prior_logpdf
-    ret = dict(ev="ret", res="val", wrapped=True, nrows=0, dimok=True, rows=[])
+    ret = dict(ev="ret", res="val", wrapped=True, nrows=0, dimok=True, rows=[], truncated=False)
     d = sc["d"]
     one = () if d == 1 else (d,)
     try:
@@ -331,12 +343,14 @@ def rec_rvs(sc):
     except Exception as ex:
         ret["res"] = "raise"
         ret["exc"] = type(ex).__name__
+    ret["truncated"] = len(events) >= MAX_RVS_EVENTS
     events.append(ret)
     for e in events:
         e.setdefault("k", 0)
         e.setdefault("kneg", False)
         e.setdefault("n", 0)
         e.setdefault("mask", [])
+        e.setdefault("truncated", False)
     return dict(kind="rvs", size=1 if nowrap else size, nowrap=nowrap, constrained=con["kind"] != "none",
                 possible=True, events=events)
 
@@ -348,7 +362,8 @@ RECORDERS = dict(wq=rec_wq, wvar=rec_wvar, ess=rec_ess, gm=rec_gm, rvs=rec_rvs)
 # scenarios
 # ---------------------------------------------------------------------------------------------
 A8 = 8
-STD_WQ_CALLS = [[a, A8, k, False] for a in range(A8 + 1) for k in (1, 2)]      # shared object on purpose
+# alpha = 0, 1/8 .. 1 on the given weights, and three of them again with all weights doubled / x4
+STD_WQ_CALLS = [[a, A8, 1, False] for a in range(A8 + 1)] + [[3, A8, 2, False], [4, A8, 2, False], [8, A8, 4, False]]   # shared object
 NONE_WQ_CALLS = [[a, A8, 1, True] for a in range(A8 + 1)] + [[a, 3, 1, True] for a in range(4)]
 
 
@@ -366,13 +381,12 @@ def wq_scenarios(ctx, rnd):
                 out.append(dict(kind="wq", xs=list(xs), ws=list(ws), calls=STD_WQ_CALLS))
     # samples of four elements: every (xs, ws) pair in the thorough tier, a seeded subset in quick
     all4 = [(xs, ws) for xs in itertools.product(range(4), repeat=4) for ws in weight_vectors(4, 3)]
-    pick = all4 if not ctx.quick else rnd.sample(all4, 3000)
-    calls4 = STD_WQ_CALLS if ctx.quick else [[a, A8, 1, False] for a in range(A8 + 1)] + [[3, A8, 4, False], [4, A8, 4, False], [8, A8, 4, False]]
+    pick = all4 if not ctx.quick else rnd.sample(all4, 1000)
     for xs, ws in pick:
-        out.append(dict(kind="wq", xs=list(xs), ws=list(ws), calls=calls4))
+        out.append(dict(kind="wq", xs=list(xs), ws=list(ws), calls=STD_WQ_CALLS))
     n_exh = len(out)
     # seeded random: longer samples, negative values, larger weights, other alpha grids
-    for _ in range(1500 if ctx.quick else 15000):
+    for _ in range(800 if ctx.quick else 10000):
         n = rnd.randint(1, 8)
         span = rnd.choice([1, 2, 5, 20])
         xs = [rnd.randint(-span, span) for _i in range(n)]
@@ -399,7 +413,7 @@ def wq_scenarios(ctx, rnd):
 
 def wvar_scenarios(ctx, rnd):
     out = []
-    std = [[1, False], [2, False], [4, False]]
+    std = [[1, False], [2, False]]
     nmax = 3 if ctx.quick else 4
     for n in range(1, nmax + 1):
         for xs in itertools.product(range(4), repeat=n):
@@ -407,7 +421,7 @@ def wvar_scenarios(ctx, rnd):
             for ws in weight_vectors(n, 3):
                 out.append(dict(kind="wvar", cols=[list(xs)], ws=list(ws), calls=std if n <= 3 else std[:1], flat=(sum(ws) % 2 == 0)))
     n_exh = len(out)
-    for _ in range(1000 if ctx.quick else 8000):
+    for _ in range(600 if ctx.quick else 6000):
         n = rnd.randint(2, 8)
         ncol = rnd.randint(1, 3)
         span = rnd.choice([1, 3, 15])
@@ -432,7 +446,7 @@ def ess_scenarios(ctx, rnd):
         for ws in itertools.product(range(4), repeat=n):      # includes the all-zero vectors (refused)
             out.append(dict(kind="ess", ws=list(ws), calls=[1, 2, 3], aslist=(sum(ws) % 3 == 0)))
     n_exh = len(out)
-    for _ in range(500 if ctx.quick else 5000):
+    for _ in range(300 if ctx.quick else 3000):
         n = rnd.randint(1, 10)
         maxw = rnd.choice([1, 5, 30])
         ws = [rnd.choice([0, rnd.randint(0, maxw), rnd.randint(1, maxw)]) for _i in range(n)]
@@ -471,7 +485,7 @@ def gm_scenarios(ctx, rnd):
                                     covform="scalar", wform="array", means1d=True,
                                     calls=[dict(pts=pts, xform="1d"), dict(pts=pts[:1], xform="scalar")]))
     n_exh = len(out)
-    for _ in range(600 if ctx.quick else 6000):
+    for _ in range(400 if ctx.quick else 4000):
         d = rnd.choice([1, 1, 2, 2, 3])
         K = rnd.randint(2, 4) if d > 1 else rnd.randint(1, 4)
         sc, base, reach = gm_lattice(rnd, d, K)
@@ -536,14 +550,16 @@ def rvs_scenarios(ctx, rnd):
         sc.update(kind="rvs", size=size, seed=rnd.randint(0, 2 ** 31 - 1), constraint=dict(kind="reject-then-all", n_reject=101))
         out.append(sc)
     n_exh = len(out)
-    for _ in range(300 if ctx.quick else 3000):
+    for _ in range(250 if ctx.quick else 2500):
         d = rnd.choice([1, 2, 3])
         K = rnd.randint(2, 4) if d > 1 else rnd.randint(1, 4)
         sc, base, _r = gm_lattice(rnd, d, K)
         r = rnd.random()
-        if r < 0.45:      # a genuine box constraint around / beside the means
-            lo = [base[j] + rnd.choice([-100, -2, 0, 1]) * sc["sds"][j] for j in range(d)]
-            hi = [lo[j] + rnd.choice([2, 3, 100]) * sc["sds"][j] for j in range(d)]
+        if r < 0.45:      # a genuine box constraint around a component of positive weight (acceptance likely)
+            pos = [i for i in range(K) if (sc["wts"][i] > 0 or sc["wform"] == "none")]
+            m = sc["means"][rnd.choice(pos)]
+            lo = [m[j] - rnd.choice([1, 2, 100]) * sc["sds"][j] for j in range(d)]
+            hi = [m[j] + rnd.choice([1, 2, 100]) * sc["sds"][j] for j in range(d)]
             con = dict(kind="box", lo=lo, hi=hi, nan_invalid=rnd.random() < 0.2)
         elif r < 0.65:
             pat = [rnd.randint(0, 1) for _j in range(rnd.randint(1, 7))]
@@ -559,7 +575,7 @@ def rvs_scenarios(ctx, rnd):
             con = dict(kind="pattern", patterns=pats, nan_invalid=rnd.random() < 0.2)
         else:
             con = dict(kind="none")
-        sc.update(kind="rvs", size=rnd.choice([None, 0, 1, 2, 3, 5, 8, 13, 40]), seed=rnd.randint(0, 2 ** 31 - 1), constraint=con)
+        sc.update(kind="rvs", size=rnd.choice([None, 0, 1, 2, 3, 5, 8, 13, 30]), seed=rnd.randint(0, 2 ** 31 - 1), constraint=con)
         out.append(sc)
     return out, n_exh
 
@@ -609,6 +625,8 @@ def tlc_digest(obj):
 
 
 def check_scenarios(ctx, scs, sample=False):
+    import logging
+    logging.getLogger("elfi.methods.utils").setLevel(logging.ERROR)    # the "keep trying" warning of rvs after 100 trials
     groups = {"WStats_Trace": [], "GmRvs_Trace": []}
     for sc in scs:
         if HANGS[0] >= 3:        # the code under test loops: enough evidence, do not burn the budget
@@ -619,7 +637,7 @@ def check_scenarios(ctx, scs, sample=False):
         if not pairs:
             continue
         traces = [tr for _sc, tr in pairs]
-        chunk = max(50, -(-len(traces) // 8))          # at most 8 TLC processes at a time
+        chunk = max(600, -(-len(traces) // 6))         # at most 6 TLC processes at a time
         verdicts = ctx.validate(module, traces, chunk=chunk, name="t%d" % ctx.traces_validated)
         for (sc, tr), v in zip(pairs, verdicts):
             ctx.case((sc["kind"], key_of(sc)), nontrivial=nontrivial(sc, tr))
@@ -636,20 +654,74 @@ def check_scenarios(ctx, scs, sample=False):
                 ctx.sample(dict(scenario=dict(sc, calls=sc.get("calls", [])[:4]), events=tr["events"][:4]), limit=8)
 
 
+def corruption_controls(ctx):
+    """Binding demonstration (DESIGN T5 i): one logged OUTPUT field of a passing trace of the real code is
+    corrupted; the trace spec must reject it with the expected P: clause.  TLC decides; a control that is
+    accepted is a machinery failure.  Skipped for a base trace that does not pass (the main check reports
+    that one)."""
+    import copy
+    gm = dict(kind="gm", d=1, means=[[0], [2]], wts=[1, 3], sds=[1], covform="scalar", wform="array", means1d=True,
+              calls=[dict(pts=[[1], [0]], xform="1d")])
+    gm1 = dict(kind="gm", d=1, means=[[0]], wts=[1], sds=[2], covform="scalar", wform="none", means1d=True,
+               calls=[dict(pts=[[2]], xform="scalar")])
+    rv = dict(kind="rvs", d=1, means=[[0], [2]], wts=[1, 1], sds=[1], covform="scalar", wform="none", means1d=True,
+              size=2, seed=3, constraint=dict(kind="pattern", patterns=[[0, 1], [1]]))
+    base = [
+        ("P:wq-def", dict(kind="wq", xs=[3, 1, 2], ws=[1, 1, 2], calls=[[3, 8, 1, False]]), lambda t: t["events"][0].update(q=3)),
+        # (a trace that passes P:wq-def call by call can break monotonicity only between equal alphas on a boundary)
+        ("P:wq-monotone", dict(kind="wq", xs=[3, 1, 2], ws=[1, 1, 2], calls=[[6, 8, 1, False], [3, 4, 1, False]]),
+         lambda t: t["events"][0].update(q=3)),
+        ("P:wq-scale", dict(kind="wq", xs=[3, 1, 2], ws=[1, 1, 2], calls=[[4, 8, 1, False], [4, 8, 2, False]]),
+         lambda t: t["events"][1].update(q=3)),                                  # valid by itself (boundary), differs from scale 1
+        ("P:wvar", dict(kind="wvar", cols=[[1, 2, 4]], ws=[1, 2, 1], calls=[[1, False]]), lambda t: t["events"][0]["vals"].__setitem__(0, t["events"][0]["vals"][0] + 5)),
+        ("P:ess", dict(kind="ess", ws=[1, 2, 1], calls=[1]), lambda t: t["events"][0].update(val=t["events"][0]["val"] + 5)),
+        ("P:gm-pdf", gm, lambda t: t["events"][0]["ps"].__setitem__(1, t["events"][0]["ps"][1] + 100)),
+        ("P:gm-logpdf", gm, lambda t: (t["events"][0]["lps"].__setitem__(0, t["events"][0]["lps"][0] + 50),
+                                       t["events"][0]["lplogs"].__setitem__(0, t["events"][0]["lplogs"][0] + 50))),
+        ("P:gm-logpdf", gm1, lambda t: (t["events"][0]["lps"].__setitem__(0, t["events"][0]["lps"][0] + 50),
+                                        t["events"][0]["lplogs"].__setitem__(0, t["events"][0]["lplogs"][0] + 50))),
+        ("P:count", rv, lambda t: t["events"][-1].update(nrows=1, rows=t["events"][-1]["rows"][:1])),
+        ("P:all-valid", rv, lambda t: t["events"][-1]["rows"].__setitem__(0, [1, 1, 1])),
+        ("P:all-valid", rv, lambda t: t["events"][-1]["rows"].__setitem__(1, [0, 0, 1])),
+    ]
+    before = ctx.traces_validated
+    for module, kinds in (("WStats_Trace", ("wq", "wvar", "ess", "gm")), ("GmRvs_Trace", ("rvs",))):
+        items = [(c, sc, f) for (c, sc, f) in base if sc["kind"] in kinds]
+        good = [RECORDERS[sc["kind"]](sc) for (_c, sc, _f) in items]
+        bad = []
+        for (_c, _sc, f), tr in zip(items, good):
+            t2 = copy.deepcopy(tr)
+            f(t2)
+            bad.append(t2)
+        vs = ctx.validate(module, good + bad, chunk=1000, name="ctl")
+        for i, (clause, sc, _f) in enumerate(items):
+            vg, vb = vs[i], vs[len(items) + i]
+            if vg["verdict"] != "ok":
+                continue
+            if vb["verdict"] != clause:
+                raise tlc.MachineryFailure("corrupted trace for %s was judged %r by %s" % (clause, vb["verdict"], module))
+            ctx.negative_controls.append(dict(run="corrupted %s trace: %s" % (sc["kind"], clause), refuted=vb["verdict"]))
+    ctx.traces_validated = before
+
+
 def design_runs(ctx):
-    """(module, cfg, expect_actions, expect_ok, workers)"""
-    runs = [
-        ("WQuantile", "MC_WQuantile_quick" if ctx.quick else "MC_WQuantile_thorough", ["RaiseAlpha", "Rescale"], True, 6),
+    """(module, cfg, expect_actions, expect_ok, workers); the long ones first."""
+    wq, ws = ["RaiseAlpha", "Rescale"], ["Rescale", "DropZero"]
+    runs = []
+    if not ctx.quick:
+        runs += [("WQuantile", "MC_WQuantile_thorough", wq, True, 4),      # n <= 4, values 0..3, weights 0..2
+                 ("WQuantile", "MC_WQuantile_mid", wq, True, 2),           # n <= 3, values 0..3, weights 0..3, tie orders
+                 ("WeightedStats", "MC_WeightedStats_thorough", ws, True, 2)]
+    runs += [
+        ("WQuantile", "MC_WQuantile_quick", wq, True, 2),                  # n <= 3, values 0..2, weights 0..2, tie orders
+        ("WeightedStats", "MC_WeightedStats_quick", ws, True, 1),
+        ("GmRvs", "MC_GmRvs", ["Trial", "Return"], True, 1),
         ("WQuantile", "MC_WQuantile_neg", None, False, 1),
         ("WQuantile", "MC_WQuantile_negdef", None, False, 1),
-        ("WeightedStats", "MC_WeightedStats_quick" if ctx.quick else "MC_WeightedStats_thorough", ["Rescale", "DropZero"], True, 2),
         ("WeightedStats", "MC_WeightedStats_neg", None, False, 1),
         ("WeightedStats", "MC_WeightedStats_negdef", None, False, 1),
-        ("GmRvs", "MC_GmRvs", ["Trial", "Return"], True, 1),
         ("GmRvs", "MC_GmRvs_neg", None, False, 1),
     ]
-    if not ctx.quick:
-        runs.insert(1, ("WQuantile", "MC_WQuantile_quick", ["RaiseAlpha", "Rescale"], True, 2))   # with TieOrderIrrelevant
     return runs
 
 
@@ -685,7 +757,7 @@ def run(ctx):
     rnd = random.Random(ctx.seed)
 
     # O1 - the design modules, concurrently with the recording of the real code
-    pool = concurrent.futures.ThreadPoolExecutor(max_workers=4)
+    pool = concurrent.futures.ThreadPoolExecutor(max_workers=2)
     futs = []
     for (module, cfg, acts, ok, workers) in design_runs(ctx):
         futs.append(pool.submit(ctx.tlc, module, cfg, expect_actions=acts, expect_ok=ok, workers=workers, timeout=2400))
@@ -702,6 +774,7 @@ def run(ctx):
             for i in range(0, len(scs), step):
                 check_scenarios(ctx, scs[i:i + step], sample=(i == 0))
         check_scenarios(ctx, [dict(sc) for sc in PINNED_F24])
+        corruption_controls(ctx)
     finally:
         errs = []
         for f in futs:
